@@ -398,6 +398,9 @@ Section HM5.
     - (* mpairs update *)
       right. destruct (hm_mapvals_ok f m I) as (I' & A). do 4 eexists. split; [reflexivity|]. split; [reflexivity|].
       split; [|cbn; reflexivity]. split; [assumption|]. rewrite A. apply Permutation_map. assumption.
+    - (* destroy *)
+      right. destruct hm_empty_inv as (I' & A). do 4 eexists. split; [reflexivity|]. split; [reflexivity|].
+      split; [|cbn; reflexivity]. split; [assumption|]. rewrite A. constructor.
   Qed.
 
 
